@@ -78,6 +78,7 @@ type TB struct {
 	ufs  map[string]*UFDecl
 	syms map[string]Sort
 	low  map[int]bool // BV32 terms known to denote input-world object ids (< lowLimit)
+	eqMemo map[[2]int]*Term
 }
 
 const lowLimit = 0x80000000
@@ -118,7 +119,7 @@ type UFDecl struct {
 }
 
 func NewTB() *TB {
-	return &TB{tab: map[string]*Term{}, ufs: map[string]*UFDecl{}, syms: map[string]Sort{}, low: map[int]bool{}}
+	return &TB{tab: map[string]*Term{}, ufs: map[string]*UFDecl{}, syms: map[string]Sort{}, low: map[int]bool{}, eqMemo: map[[2]int]*Term{}}
 }
 
 func (tb *TB) mk(t *Term) *Term {
@@ -370,6 +371,19 @@ func (tb *TB) Eq(a, b *Term) *Term {
 	if a.IsConst() && b.IsConst() {
 		return tb.False() // hash-consed: different constants
 	}
+	key := [2]int{a.id, b.id}
+	if a.id > b.id {
+		key = [2]int{b.id, a.id}
+	}
+	if r, ok := tb.eqMemo[key]; ok {
+		return r
+	}
+	r := tb.eq(a, b)
+	tb.eqMemo[key] = r
+	return r
+}
+
+func (tb *TB) eq(a, b *Term) *Term {
 	if a.Sort.K == KBool {
 		if a.IsTrue() {
 			return b
@@ -391,7 +405,7 @@ func (tb *TB) Eq(a, b *Term) *Term {
 		// push a comparison with a constant into an ite when both sides decide
 		for _, pr := range [][2]*Term{{a, b}, {b, a}} {
 			x, k := pr[0], pr[1]
-			if x.Op == "ite" && k.Op == "bv" {
+			if x.Op == "ite" && (k.Op == "bv" || iteOfSums(x)) && k.Op != "ite" {
 				e1 := tb.Eq(x.Args[1], k)
 				e2 := tb.Eq(x.Args[2], k)
 				if e1.IsConst() && e2.IsConst() || e1.IsConst() && e1.IsFalse() || e2.IsConst() && e2.IsFalse() {
@@ -441,10 +455,29 @@ func (tb *TB) bin(op string, a, b *Term) *Term {
 	return tb.mk(&Term{Op: op, Sort: a.Sort, Args: []*Term{a, b}})
 }
 
+// iteOfSums: ite(c, x+k1, x+k2)-shaped term (produced by distributing + over ite of constants)
+func iteOfSums(t *Term) bool {
+	return t.Op == "ite" && t.Args[1].Sort.K == KBV && t.Args[1].Op != "ite" && t.Args[2].Op != "ite"
+}
+
 func (tb *TB) Add(a, b *Term) *Term {
 	w := a.Sort.W
 	if a.Sort != b.Sort {
 		panic(fmt.Sprintf("bvadd sort mismatch %v %v", a.Sort, b.Sort))
+	}
+	// x + ite(c, k1, k2) = ite(c, x+k1, x+k2): keeps offsets of the form base+constant
+	for _, pr := range [][2]*Term{{a, b}, {b, a}} {
+		x, t := pr[0], pr[1]
+		if t.Op == "ite" && t.Args[1].Op == "bv" && t.Args[2].Op == "bv" && x.Op != "ite" {
+			return tb.Ite(t.Args[0], tb.Add(x, t.Args[1]), tb.Add(x, t.Args[2]))
+		}
+		if t.Op == "bv" && x.Op == "ite" && iteOfSums(x) {
+			b1, _ := tb.splitAdd(x.Args[1])
+			b2, _ := tb.splitAdd(x.Args[2])
+			if b1 == b2 {
+				return tb.Ite(x.Args[0], tb.Add(x.Args[1], t), tb.Add(x.Args[2], t))
+			}
+		}
 	}
 	ba, ca := tb.splitAdd(a)
 	bb, cb := tb.splitAdd(b)
@@ -910,7 +943,11 @@ func (tb *TB) stillBound(body *Term, vars []*Term) bool {
 
 // Subst replaces symbols/bvars (by term identity) in t.
 func (tb *TB) Subst(t *Term, m map[*Term]*Term) *Term {
-	memo := map[int]*Term{}
+	return tb.SubstMemo(t, m, map[int]*Term{})
+}
+
+// SubstMemo is Subst with a memo table shared between calls that use the same map.
+func (tb *TB) SubstMemo(t *Term, m map[*Term]*Term, memo map[int]*Term) *Term {
 	var rec func(t *Term) *Term
 	rec = func(t *Term) *Term {
 		if r, ok := m[t]; ok {
